@@ -31,3 +31,13 @@ claim("C12", "Proof of the replication layout: batchify/unbatchify (tensors: lay
       not_covered=["nesting depth 3 (r,a,s): the non-linear index arithmetic (mod of mod over products of three symbolic factors) is not decided reliably by z3/cvc5; covered by the eval/loss stand-in only", "feasibility of forced OP start nodes when num_starts < #feasible (see known findings / stand-in)", "POMO/SymNCO regrouping lines (covered by the eval/loss stand-in)"])
 claim("C18", "Bounded stand-in only so far (labelled bounded): run-time contract check of every generator over the parameter grid stated in the evidence against the documented ranges, plus a mask-confined rollout per generated batch (solvable).",
       level="exploration", note="Bounded run-time contract check, not a proof.")
+claim("C09", "Bounded stand-in only so far (labelled bounded): exhaustive enumeration of all tours x all admitted moves for small N plus random move sequences and policy-chosen moves, checking tour validity and best-so-far bookkeeping against an independent oracle.",
+      level="exploration", note="Bounded run-time contract check, not a proof.")
+claim("C16", "Proof that REINFORCE.calculate_loss equals -mean((reward - baseline) * log_likelihood) + baseline loss for scalar, per-instance, dataset ('extra') and absent baselines (shapes included), that shared-baseline advantages sum to zero per instance, and that exponential / critic baseline values are detached (ghost grad-path flag).",
+      not_covered=["numerical equality of autograd gradients (A8)", "PPO / A2C / POMO / SymNCO step functions (stand-in)"])
+claim("C17", "Bounded stand-in only so far (labelled bounded): run-time contract check of every dataset class through the real dataloader construction, and of RolloutBaseline.wrap_dataset, over the grid stated in the evidence.",
+      level="exploration", note="Bounded run-time contract check, not a proof.")
+claim("C19", "Bounded stand-in only so far (labelled bounded): npz / load_data / FJSP-JSSP text / deepcopy-pickle / checkpoint round trips on the real functions over the grid stated in the evidence.",
+      level="exploration", note="Bounded run-time contract check, not a proof. Checkpoint restore runs inside Lightning/torch.load: no contract within reach decides it deductively.")
+claim("C20", "Proof of the representation invariant of RewardScaler (count, mean, M2 against n, sum, sum of squares) for any batch size (batched Welford, non-linear real arithmetic), of the four output transformations, of the EMA recurrence and of the warm-up convex combination and its schedule.",
+      not_covered=["accumulated float32 error (A1)"])
